@@ -421,6 +421,7 @@ func isRead(o op) bool {
 func TestCheck(t *testing.T) {
 	env := report.FromEnv()
 	rep := env.New("C14")
+	defer rep.Guard(env)
 	rep.Assumptions = []string{
 		"scheduling points are the database mutex acquire and the audit sink write; file-system calls inside save() run inside the critical section and are not separate gates here (C04/C17 gate them)",
 		"absence of data races is not decided by this check (a cooperative scheduler hides them); see DESIGN.md §2.7",
